@@ -499,6 +499,40 @@ func c07a(c *Ctx) {
 				_, isPhi := v.(*ssa.Phi)
 				return isPhi && saw0 && sawS
 			}
+			// which of the two it is goes with the first-word flag of the line — the same flag that
+			// decides whether the space is written (C07.a space clause) — not with the width so far
+			// (a first word of width 0 is still a first word)
+			flagGuards := func(v ssa.Value) string {
+				ph, isPhi := v.(*ssa.Phi)
+				if !isPhi {
+					return ""
+				}
+				for i, e := range ph.Edges {
+					must := c.edgeMust(fn, ph.Block().Preds[i], ph.Block())
+					var leaves []ssa.Value
+					phiLeaves(e, map[ssa.Value]bool{}, &leaves)
+					for _, lf := range leaves {
+						withSpace := isSum(lf, isW, isSpaceWidth) || isSpaceWidth(lf)
+						plain := isW(lf)
+						if k, isC := intConst(lf); isC && k == 0 {
+							plain = true
+						}
+						bare := ""
+						for _, l := range must {
+							if (strings.HasPrefix(l, "+phi(") || strings.HasPrefix(l, "-phi(")) && !strings.Contains(l, " == ") && !strings.Contains(l, " < ") {
+								bare = l
+							}
+						}
+						switch {
+						case withSpace && !strings.HasPrefix(bare, "-phi("):
+							return "the space width is added under " + fmt.Sprint(prettyAll(must)) + ", expected exactly when the word is not the first of its line (the first-word flag)"
+						case plain && !withSpace && !strings.HasPrefix(bare, "+phi("):
+							return "the space width is left out under " + fmt.Sprint(prettyAll(must)) + ", expected exactly for the first word of a line (the first-word flag)"
+						}
+					}
+				}
+				return ""
+			}
 			isNW := func(v ssa.Value) bool {
 				if isSum(v, isW, isSepChoice) {
 					return true
@@ -519,7 +553,29 @@ func c07a(c *Ctx) {
 				return sawW && sawWS
 			}
 			isCW := func(v ssa.Value) bool { return v == ssa.Value(cw) }
-			isGrown := func(v ssa.Value) bool { return isSum(v, isCW, isNW) }
+			nwWhy := ""
+			isGrown := func(v ssa.Value) bool {
+				if !isSum(v, isCW, isNW) {
+					return false
+				}
+				bo := v.(*ssa.BinOp)
+				nw := bo.Y
+				if isCW(bo.Y) {
+					nw = bo.X
+				}
+				// the choice sits in nw itself, or in the separator it is the sum of
+				if w := flagGuards(nw); w != "" {
+					nwWhy = w
+				}
+				if nb, ok := nw.(*ssa.BinOp); ok {
+					for _, op := range []ssa.Value{nb.X, nb.Y} {
+						if w := flagGuards(op); w != "" {
+							nwWhy = w
+						}
+					}
+				}
+				return true
+			}
 			sawZero, sawWord, sawGrown := false, false, false
 			for i, e := range cw.Edges {
 				if !head.Dominates(head.Preds[i]) {
@@ -571,6 +627,9 @@ func c07a(c *Ctx) {
 			})
 			if okArith && nCmp != 1 {
 				okArith, why = false, fmt.Sprintf("found %d comparisons with maxWidth, expected 1", nCmp)
+			}
+			if okArith && nwWhy != "" {
+				okArith, why = false, nwWhy
 			}
 		}
 		c.Check(okArith, "width/arithmetic", c.W.Pos(wordPhi.Pos()), "running width: 0 after a break, the word after a wrap, else + word (+ space); compared value = that sum (+ cursor room)", why)
@@ -1217,6 +1276,68 @@ func c07d(c *Ctx) {
 				c.Check(bad == "", "getNextWord/escape-flag", c.W.Pos(ph.Pos()), "the escape flag is set by a backslash, kept only while the escaped character is judged, cleared otherwise", bad)
 			}
 		}
+		// the scanner's vocabulary is closed: the character it looks at is only ever compared with
+		// constants (space, backslash, braces, the break letters) — never handed to a predicate
+		// (unicode.IsSpace would make tabs and ideographic spaces break points and drop them)
+		{
+			nCmp, bad := 0, ""
+			var judgeUses func(f *ssa.Function, v ssa.Value, depth int)
+			judgeUses = func(f *ssa.Function, v ssa.Value, depth int) {
+				if v.Referrers() == nil {
+					return
+				}
+				ex := v
+				for _, r := range *v.Referrers() {
+					// a predicate of the package that itself only compares the character with the
+					// vocabulary (`isLineBreakLetter(char)`) is part of the scanner
+					if ci, isCall := r.(ssa.CallInstruction); isCall && depth < 2 {
+						if g := callee(ci); g != nil && c.W.InRepo(g) && len(g.Blocks) > 0 && c.T(gn).purity(g) >= purReadOnly {
+							idx := -1
+							for i, a := range ci.Common().Args {
+								if a == v {
+									idx = i
+								}
+							}
+							if idx >= 0 && idx < len(g.Params) {
+								judgeUses(g, g.Params[idx], depth+1)
+								continue
+							}
+						}
+					}
+					switch y := r.(type) {
+					case *ssa.BinOp:
+						nCmp++
+						other := y.X
+						if other == ssa.Value(ex) {
+							other = y.Y
+						}
+						k, isC := intConst(other)
+						if !isC {
+							bad = "the character is compared with " + pretty(c.term(f, other))
+						} else if !strings.ContainsRune(" \\{}lnpN", rune(k)) {
+							bad = fmt.Sprintf("the character is compared with %q, which is not part of the scanner's vocabulary (space, backslash, braces, l n p N)", rune(k))
+						}
+					case *ssa.DebugRef:
+					default:
+						bad = fmt.Sprintf("the character is used by %T (%s): only comparisons with the scanner's own constants decide where a word ends", r, pretty(c.term(f, ex)))
+						if ci, isCall := r.(ssa.CallInstruction); isCall {
+							bad = "the character is handed to " + calleeName(ci) + ": only comparisons with the scanner's own constants decide where a word ends"
+						}
+					}
+				}
+			}
+			instrs(gn, func(in ssa.Instruction) {
+				ex, ok := in.(*ssa.Extract)
+				if !ok || ex.Index != 2 {
+					return
+				}
+				if _, isNext := ex.Tuple.(*ssa.Next); !isNext {
+					return
+				}
+				judgeUses(gn, ex, 0)
+			})
+			c.Check(bad == "" && nCmp >= 6, "getNextWord/vocabulary", c.W.FuncPos(gn), fmt.Sprintf("the scanner compares the character with its %d constants only", nCmp), bad)
+		}
 		c.Check(nFlag == 1, "getNextWord/escape-flag/site", c.W.FuncPos(gn), "the word scanner has one escape flag", fmt.Sprintf("found %d boolean loop variables set by a backslash in getNextWord, expected 1", nFlag))
 	}
 	c.Check(nCounters >= 3, "depth-counters", "-", fmt.Sprintf("%d guarded decrements of zero-tested loop counters in package parser", nCounters), "fewer depth counters than confirmed by hand")
@@ -1282,6 +1403,7 @@ func c07e(c *Ctx) {
 				ok = ok && isConv && cv.X == ssa.Value(fn.Params[1]) && ci.Common().Args[2] == ssa.Value(fn.Params[2])
 			}
 			c.Check(ok, "width-chain/rune-lookup", c.W.FuncPos(fn), "a character is looked up as string(r) in the font asked for", "getRunePixelWidth does not look up string(r) with its own fontID")
+			c07eReturnsLookup(c, fn, gw, "width-chain/rune-width-is-the-table-value")
 		}
 		if fn := c.Fn("parser.FontConfig.getControlCodePixelWidth"); fn != nil {
 			calls := callsToIn(fn, gw)
@@ -1290,6 +1412,7 @@ func c07e(c *Ctx) {
 				ok = ok && ci.Common().Args[1] == ssa.Value(fn.Params[1]) && ci.Common().Args[2] == ssa.Value(fn.Params[2])
 			}
 			c.Check(ok, "width-chain/control-code-lookup", c.W.FuncPos(fn), "a control code is looked up under its own spelling (braces included, as the table lists it)", "getControlCodePixelWidth does not look up the code as it is written, in the font asked for: a code the table lists would get the default width")
+			c07eReturnsLookup(c, fn, gw, "width-chain/control-code-width-is-the-table-value")
 		}
 	}
 	if fn := c.Fn("parser.FontConfig.getWordPixelWidth"); fn != nil {
@@ -1517,4 +1640,46 @@ func c07f(c *Ctx) {
 		}
 		c.Check(ok, "shouldUseLineFeed/definition", c.W.FuncPos(fn), `\l is used from the last line of the box on: line number >= numLines-1`, "shouldUseLineFeed is true under "+got+", expected exactly curLineNum >= numLines-1")
 	}
+}
+
+// c07eReturnsLookup: a width helper hands back what getWidth found, as it is (a constant for the
+// built-in test font): no clamping, rounding or scaling of a table value — a glyph listed with
+// width 0 has width 0.
+func c07eReturnsLookup(c *Ctx, fn, gw *ssa.Function, key string) {
+	ok, why := true, ""
+	n := 0
+	for _, r := range returnsOf(fn) {
+		var leaves []ssa.Value
+		phiLeaves(r.Results[0], map[ssa.Value]bool{}, &leaves)
+		for _, lf := range leaves {
+			n++
+			if call, isCall := lf.(*ssa.Call); isCall && callee(call) == gw {
+				continue
+			}
+			if k, isC := lf.(*ssa.Const); isC && k.Value != nil {
+				// a constant only for the built-in test font
+				okConst := true
+				for _, alt := range c.resultAlts(fn, r.Results[0]) {
+					if alt.term != k.Value.String() {
+						continue
+					}
+					must := append(append([]string{}, alt.must...), c.mustLits(fn, r.Block())...)
+					test := false
+					for _, l := range must {
+						if strings.HasPrefix(l, "+($2 == ") {
+							test = true
+						}
+					}
+					okConst = okConst && test
+				}
+				if okConst {
+					continue
+				}
+				ok, why = false, fn.Name()+" can return the constant "+k.Value.String()+" for a font other than the built-in test font: table values (0 included) must come back unchanged"
+				continue
+			}
+			ok, why = false, fn.Name()+" returns "+pretty(c.term(fn, lf))+", not the width getWidth found: table values (0 included) must come back unchanged"
+		}
+	}
+	c.Check(ok && n > 0, key, c.W.FuncPos(fn), "the helper returns the table's width unchanged", why)
 }
